@@ -1,1 +1,2 @@
 import TT.Props.C20
+import TT.Props.C19
